@@ -8,59 +8,32 @@ From Coq Require Import ZArith.
 From Ford Require Import Base.Str Base.StrX Sem.TypeSpec Sem.DeclSpec Sem.TypeSpecProofs.
 
 (* Every intrinsic or derived type T with kind / length expressions k, l (not empty, no white space,
-   quote or "=", parentheses balanced; a star form only with a literal), written in ANY spelling sp
-   -- letter case of every keyword, real*8 | real(8) | real(kind=8), character*10 | (10) | (len=10) |
-   (len=.., kind=..) | (kind=.., len=..) | (.., kind=..), "double precision" with any positive number of
-   blanks, blanks inside the parentheses, around "=" and before "(" -- and followed by n blanks and
-   any text t that starts with an attribute list, "::" or a name: parse_type returns exactly the
-   declared type, kind and length, and t as the rest.  Hypothesis [type_region sp T = 0] excludes
-   the four recorded defects. *)
+   quote or "=", parentheses balanced; a star form only with a literal; no comma inside the
+   parameters of character), written in ANY spelling sp -- letter case of every keyword,
+   real*8 | real * 8 | real(8) | real(kind=8), character*10 | star with an asterisk in parentheses | (10) | (len=10) | (len=.., kind=..) |
+   (kind=.., len=..) | (.., kind=..), "double precision" with any number of blanks including none,
+   blanks inside the parentheses, around "=", after "*" and before "(" -- and followed by n blanks
+   and any text t that starts with an attribute list, "::" or a name: parse_type returns exactly
+   the declared type, kind and length, and t as the rest. *)
 Theorem C01_type_spellings : forall sp T n t,
-  type_ok sp T = true -> type_region sp T = 0 -> tail_ok n t = true ->
+  type_ok sp T = true -> tail_ok n t = true ->
   parse_type (render_type sp T ++ blanks n ++ t) = Ok (spec_parsed T t).
 Proof. exact type_spellings. Qed.
 Print Assumptions C01_type_spellings.
 
-(* the character len / kind lemma: all orders of len= / kind=, positional forms, the star forms *)
+(* the character len / kind lemma: all orders of len= / kind=, positional forms, the star forms;
+   the length is the whole expression *)
 Theorem C01_character_spellings : forall sp l k n t,
-  type_ok sp (AChar l k) = true -> type_region sp (AChar l k) = 0 -> tail_ok n t = true ->
+  type_ok sp (AChar l k) = true -> tail_ok n t = true ->
   parse_type (render_type sp (AChar l k) ++ blanks n ++ t)
   = Ok (mkpt (s "character") t k (Some (match l with Some x => x | None => s "1" end)) None).
 Proof. exact type_spellings_char. Qed.
 Print Assumptions C01_character_spellings.
 
-(* the full statement (no region hypothesis) is FALSE of the code; one witness per defect *)
-Definition C01_type_spellings_statement : Prop := type_spellings_statement.
-Theorem C01_type_spellings_refuted : ~ C01_type_spellings_statement.
-Proof. exact type_spellings_refuted. Qed.
-Print Assumptions C01_type_spellings_refuted.
-Theorem C01_type_spellings_refuted_double :
-  exists sp T n t, type_ok sp T = true /\ tail_ok n t = true /\ type_region sp T = 1 /\
-    parse_type (render_type sp T ++ blanks n ++ t) = Ok (mkpt (s "doubleprecision") t None None None).
-Proof. exact type_spellings_refuted_double. Qed.
-Print Assumptions C01_type_spellings_refuted_double.
-Theorem C01_type_spellings_refuted_star :
-  exists sp T n t, type_ok sp T = true /\ tail_ok n t = true /\ type_region sp T = 2 /\
-    parse_type (render_type sp T ++ blanks n ++ t) = Err (s "ValueError").
-Proof. exact type_spellings_refuted_star. Qed.
-Print Assumptions C01_type_spellings_refuted_star.
-Theorem C01_character_spellings_refuted_len :
-  exists sp T n t, type_ok sp T = true /\ tail_ok n t = true /\ type_region sp T = 3 /\
-    parse_type (render_type sp T ++ blanks n ++ t) = Ok (mkpt (s "character") t None (Some (s "n")) None) /\
-    spec_parsed T t = mkpt (s "character") t None (Some (s "n+1")) None.
-Proof. exact character_spellings_refuted_len. Qed.
-Print Assumptions C01_character_spellings_refuted_len.
-Theorem C01_type_spellings_refuted_kind_comma :
-  exists sp T n t, type_ok sp T = true /\ tail_ok n t = true /\ type_region sp T = 4 /\
-    parse_type (render_type sp T ++ blanks n ++ t) = Ok (mkpt (s "real") t (Some (s "selected_real_kind(6")) None None).
-Proof. exact type_spellings_refuted_kind_comma. Qed.
-Print Assumptions C01_type_spellings_refuted_kind_comma.
-
-(* Independence of letter case and of the chosen equivalent spelling: any two admissible
-   spellings of the same type give the same result. *)
+(* Independence of letter case and of the chosen equivalent spelling: any two spellings of the
+   same type give the same result. *)
 Theorem C01_case_invariance : forall sp sp' T n t,
-  type_ok sp T = true -> type_region sp T = 0 -> type_ok sp' T = true -> type_region sp' T = 0 ->
-  tail_ok n t = true ->
+  type_ok sp T = true -> type_ok sp' T = true -> tail_ok n t = true ->
   parse_type (render_type sp T ++ blanks n ++ t) = parse_type (render_type sp' T ++ blanks n ++ t).
 Proof. exact case_invariance. Qed.
 Print Assumptions C01_case_invariance.
@@ -76,25 +49,30 @@ Print Assumptions C01_case_invariance_refuted_attribute.
    variable that the declaration carrying the (lower-case) attribute gives. *)
 Theorem C01_attr_stmt_equiv : forall a v acc,
   In a text_attrs -> forallb is_word (v_name v) = true ->
-  (exists st, record_attribute (mkas [] []) a (v_name v) = Ok st /\
+  (exists st, record_attribute (mkas [] []) [] a (v_name v) = Ok st /\
               process_attribs st [v] = Ok [set_attribs v (v_attribs v ++ [a])])
   /\ classify acc a = mkacc (a_attribs acc ++ [a]) (a_intent acc) (a_optional acc) (a_permission acc) (a_parameter acc).
 Proof. exact attr_stmt_equiv. Qed.
 Print Assumptions C01_attr_stmt_equiv.
-(* refuted for OPTIONAL, PARAMETER, DIMENSION (statement and attribute vs array spec),
-   INTENT(IN OUT) and for statements naming the result variable of a function *)
-Theorem C01_attr_stmt_equiv_refuted_optional :
-  both (sub1 (s "b")) [s "integer b"; s "optional b"] [s "integer, optional :: b"]
-       (fun v v' => negb (v_optional v) && attribs_are v [s "optional"] && v_optional v' && attribs_are v' []) = true.
-Proof. exact attr_stmt_equiv_refuted_optional. Qed.
-Print Assumptions C01_attr_stmt_equiv_refuted_optional.
-Theorem C01_attr_stmt_equiv_refuted_parameter :
-  both (sub1 []) [s "character(len=5) str"; s "parameter (str = 'a  b')"]
-       [s "character(len=5), parameter :: str = 'a  b'"]
-       (fun v v' => negb (v_parameter v) && attribs_are v [s "parameter"] && initial_is v (s " ""0""")
-                    && v_parameter v' && attribs_are v' [] && initial_is v' (s "'a" ++ [nbsp; nbsp] ++ s "b'")) = true.
-Proof. exact attr_stmt_equiv_refuted_parameter. Qed.
-Print Assumptions C01_attr_stmt_equiv_refuted_parameter.
+(* OPTIONAL, INTENT(..) and PARAMETER set the same field in both forms *)
+Theorem C01_attr_stmt_equiv_optional : forall params v acc,
+  apply_attr params (Ok v) (s "optional") = Ok (with_optional v) /\
+  classify acc (s "optional") = mkacc (a_attribs acc) (a_intent acc) true (a_permission acc) (a_parameter acc).
+Proof. exact attr_stmt_equiv_optional. Qed.
+Print Assumptions C01_attr_stmt_equiv_optional.
+Theorem C01_attr_stmt_equiv_intent : forall params v acc i,
+  In i [s "in"; s "out"; s "inout"] ->
+  apply_attr params (Ok v) (s "intent(" ++ i ++ s ")") = Ok (with_intent v i) /\
+  classify acc (s "intent(" ++ i ++ s ")")
+  = mkacc (a_attribs acc) i (a_optional acc) (a_permission acc) (a_parameter acc).
+Proof. exact attr_stmt_equiv_intent. Qed.
+Print Assumptions C01_attr_stmt_equiv_intent.
+Theorem C01_attr_stmt_equiv_parameter : forall params v init,
+  pdict_get (lower (v_name v)) params = Some init ->
+  apply_attr params (Ok v) (s "parameter") = Ok (with_parameter v init).
+Proof. exact attr_stmt_equiv_parameter. Qed.
+Print Assumptions C01_attr_stmt_equiv_parameter.
+(* still refuted: DIMENSION (attribute or statement) against an array spec after the name *)
 Theorem C01_attr_stmt_equiv_refuted_dimension :
   both (sub1 []) [s "real a"; s "dimension a(3)"] [s "real :: a(3)"]
        (fun v v' => seqb (v_dimension v) [] && attribs_are v [s "dimension(3)"]
@@ -104,33 +82,6 @@ Theorem C01_attr_stmt_equiv_refuted_dimension :
                     && seqb (v_dimension v') (s "(3)") && attribs_are v' []) = true.
 Proof. exact attr_stmt_equiv_refuted_dimension. Qed.
 Print Assumptions C01_attr_stmt_equiv_refuted_dimension.
-Theorem C01_attr_stmt_equiv_refuted_intent_in_out :
-  both (sub1 (s "d")) [s "real d"; s "intent(in out) d"] [s "real, intent(in out) :: d"]
-       (fun v v' => seqb (v_intent v) [] && seqb (v_intent v') (s "inout")) = true.
-Proof. exact attr_stmt_equiv_refuted_intent_in_out. Qed.
-Print Assumptions C01_attr_stmt_equiv_refuted_intent_in_out.
-Theorem C01_attr_stmt_equiv_refuted_result :
-  both (mkhdr UFunction None (s "f") (Some (s "()")) (Some (s "r")))
-       [s "real r"; s "dimension r(3)"; s "save r"] [s "real, dimension(3), save :: r"]
-       (fun v v' => attribs_are v [] && attribs_are v' [s "dimension(3)"; s "save"]) = true.
-Proof. exact attr_stmt_equiv_refuted_result. Qed.
-Print Assumptions C01_attr_stmt_equiv_refuted_result.
-
-(* Typed function prefixes are lower-cased and searched for prefix keywords before parse_type sees
-   them. *)
-Theorem C01_prefix_refuted_case :
-  retvar_test (fun0 (Some (s "real(WP)")) (s "f")) [] (fun r => opt_eqb seqb (v_kind r) (Some (s "wp"))) = true /\
-  retvar_test (fun0 None (s "f")) [s "real(WP) :: f"] (fun r => opt_eqb seqb (v_kind r) (Some (s "WP"))) = true.
-Proof. exact prefix_refuted_case. Qed.
-Print Assumptions C01_prefix_refuted_case.
-Theorem C01_prefix_refuted_keyword :
-  retvar_test (fun0 (Some (s "type(module_t)")) (s "f3")) []
-              (fun r => opt_eqb (pair_eqb seqb seqb) (v_proto r) (Some (s "_t", []))) = true /\
-  attribs_of (fun0 (Some (s "type(module_t)")) (s "f3")) [] = [s "module"] /\
-  retvar_test (fun0 None (s "f3")) [s "type(module_t) :: f3"]
-              (fun r => opt_eqb (pair_eqb seqb seqb) (v_proto r) (Some (s "module_t", []))) = true.
-Proof. exact prefix_refuted_keyword. Qed.
-Print Assumptions C01_prefix_refuted_keyword.
 
 (* Ordered argument list: the dummy arguments are reported in the order of the argument list; each
    is the variable declared under that name (up to letter case) or an implicitly typed one. *)
